@@ -1,6 +1,8 @@
 import Proofs.C14Prepare
+import Proofs.C14Conn
+import Proofs.C14Obs
 /-!
-# C14 — prepared statements (property theorems; sequential + logical core)
+# C14 — prepared statements (property theorems; sequential + logical core, and the session tier)
 
 Models: `Model/LRU.lean` (internal/lru/lru.go), `Model/Prepare.lean` (prepared_cache.go, conn.go
 prepareStatement / evictPreparedID). "∀ schedule" = every finite list of actions accepted by `step`
@@ -180,5 +182,335 @@ example :
 example :
     (run (init 10 : State Nat) [.lookup 1, .lookup 1, .complete 0 none, .lookup 1]).map
       (fun s => (prepares s.log 1, s.cache.find 1, outcome s 0)) = some (2, some 1, some .failed) := by decide
+
+/-! ## Session tier: executions on real connections (`PConn`), for every schedule
+
+`PConn` (Model/Prepare.lean): any number of callers (queries and batches), the flights' goroutines, the
+scripted server (any answers), capacity evictions at any time. A schedule is any list of actions accepted by
+`PConn.step`; its trace is the list of observable events (`Ev`). `Obs` is the observable-level
+specification that also judges the histories recorded on real Sessions (op `trace`). -/
+section Conn
+open PConn Obs C14Conn C14Obs
+variable {κ : Type} [DecidableEq κ]
+
+/-- **Every schedule is accepted by the specification** — in particular no schedule contains a `crash`
+    (nil dereference in evictPreparedID) and every enabledness condition of `Obs` (the clauses below) holds
+    at every event of every schedule. -/
+theorem C14_conn_refines (as : List (PConn.Action κ)) (s : PConn.State κ) (tr : List (Ev κ))
+    (h : PConn.run PConn.init as = some (s, tr)) : ∃ o, Obs.run Obs.init tr = some o := by
+  obtain ⟨o, h1, _, _⟩ := reachable h
+  exact ⟨o, h1⟩
+
+/-- state of the specification just before an event of a schedule's trace -/
+theorem before_event {as : List (PConn.Action κ)} {s : PConn.State κ} {pre post : List (Ev κ)} {e : Ev κ}
+    (h : PConn.run PConn.init as = some (s, pre ++ e :: post)) :
+    ∃ o1 o2, Obs.run Obs.init pre = some o1 ∧ Hist pre o1 ∧ Obs.step o1 e = some o2 := by
+  obtain ⟨o, ho⟩ := C14_conn_refines as s _ h
+  obtain ⟨o1, o2, h1, h2⟩ := run_split Obs.init pre e post o ho
+  have hH := hist_run pre [] Obs.init o1 hist_init h1
+  exact ⟨o1, o2, h1, by simpa using hH, h2⟩
+
+/-- **Ids belong to the statement (and are not superseded).** Whenever, in any schedule, the server receives
+    an EXECUTE / BATCH frame of call c: the call was started with entries `es`, the frame carries one id per
+    entry, and the j-th id was returned by the server for a PREPARE of exactly the j-th entry's key (host,
+    keyspace, statement), with as many bind columns as that entry has bound values (`e.2`), by a flight that
+    had not left the cache when the call started / sent its previous frame. -/
+theorem C14_id_belongs (as : List (PConn.Action κ)) (s : PConn.State κ) (pre post : List (Ev κ)) (c : Nat) (ids : List Id) (a : XAns)
+    (h : PConn.run PConn.init as = some (s, pre ++ Ev.exec c ids a :: post)) :
+    ∃ b es, Ev.start c b es ∈ pre ∧ ids.length = es.length ∧
+      ∀ (j : Nat) (e : κ × Nat) (id : Id), es[j]? = some e → ids[j]? = some id →
+        ∃ f, Ev.prep f e.1 (some (id, e.2)) ∈ pre ∧ removedBefore pre c f = false := by
+  obtain ⟨o1, o2, _, hH, hs⟩ := before_event h
+  simp only [Obs.step] at hs
+  cases hc : o1.callers[c]? with
+  | none => simp [hc] at hs
+  | some cl =>
+    simp only [hc] at hs
+    by_cases hk : cl.pc.live = true ∧ okEntries o1 cl.banned cl.entries ids = true
+    · obtain ⟨b, hb⟩ := hH.start c cl hc
+      obtain ⟨hl, hall⟩ := okEntries_sound hH cl.banned cl.entries ids hk.2
+      refine ⟨b, cl.entries, hb, hl, ?_⟩
+      intro j e id he hid
+      obtain ⟨f, h1, h2⟩ := hall j e id he hid
+      refine ⟨f, h1, ?_⟩
+      unfold removedBefore
+      rw [← hH.ban c cl hc]; exact h2
+    · rw [if_neg hk] at hs; cases hs
+
+/-- **Single flight on connections.** In every schedule and at every point of it, the number of PREPAREs the
+    server has received for a key is at most one more than the number of times an entry of that key left the
+    cache (capacity eviction, failed PREPARE, UNPREPARED): with no removal, one PREPARE however many
+    executors there are. -/
+theorem C14_single_flight_conn (as : List (PConn.Action κ)) (s : PConn.State κ) (pre post : List (Ev κ))
+    (h : PConn.run PConn.init as = some (s, pre ++ post)) (k : κ) :
+    prepCount k pre ≤ rmCount k pre + 1 := by
+  have key : ∀ o1, Obs.run Obs.init pre = some o1 → prepCount k pre ≤ rmCount k pre + 1 := by
+    intro o1 h1
+    have hH := hist_run pre [] Obs.init o1 hist_init h1
+    have := (show Hist pre o1 by simpa using hH).credit k
+    omega
+  cases post with
+  | nil =>
+    obtain ⟨o, ho⟩ := C14_conn_refines as s _ h
+    exact key o (by simpa using ho)
+  | cons e post =>
+    obtain ⟨o1, _, h1, _, _⟩ := before_event h
+    exact key o1 h1
+
+/-- **A failed PREPARE is reported, not remembered.** Whenever a call returns the failure of PREPARE f: f is
+    a PREPARE of a statement of that call which the server answered with an error; the entry had already left
+    the cache when the failure was reported (a failed flight is never published as done); and it had not yet
+    left the cache when the call started / sent its previous frame (the failure is never served to an
+    execution that began after it was known). -/
+theorem C14_failure_not_cached_conn (as : List (PConn.Action κ)) (s : PConn.State κ) (pre post : List (Ev κ)) (c f : Nat)
+    (h : PConn.run PConn.init as = some (s, pre ++ Ev.ret c (.prepErr f) :: post)) :
+    ∃ k b es, Ev.start c b es ∈ pre ∧ hasKey es k = true ∧ Ev.prep f k none ∈ pre ∧ Ev.rm k f ∈ pre ∧
+      removedBefore pre c f = false := by
+  obtain ⟨o1, o2, _, hH, hs⟩ := before_event h
+  simp only [Obs.step] at hs
+  cases hc : o1.callers[c]? with
+  | none => simp [hc] at hs
+  | some cl =>
+    simp only [hc] at hs
+    by_cases hp : cl.pc.live = true ∧ cl.banned f = false
+    · rw [if_pos hp] at hs
+      cases hf : o1.flights f with
+      | none => simp [hf] at hs
+      | some fl =>
+        simp only [hf] at hs
+        by_cases hq : hasKey cl.entries fl.key = true ∧ fl.ans = some none ∧ fl.removed = true
+        · obtain ⟨b, hb⟩ := hH.start c cl hc
+          refine ⟨fl.key, b, cl.entries, hb, hq.1, hH.prep f fl none hf hq.2.1, hH.rm f fl hf hq.2.2, ?_⟩
+          unfold removedBefore
+          rw [← hH.ban c cl hc]; exact hp.2
+        · rw [if_neg hq] at hs; cases hs
+    · rw [if_neg hp] at hs; cases hs
+
+/-- … hence: once the failure of PREPARE f has been reported to somebody, no execution that starts later is
+    ever given that failure — the next execution prepares again. -/
+theorem C14_failure_not_served_later (as : List (PConn.Action κ)) (s : PConn.State κ) (p1 p2 post : List (Ev κ)) (c c' f : Nat)
+    (b : Bool) (es : List (κ × Nat))
+    (h : PConn.run PConn.init as = some (s, p1 ++ Ev.start c b es :: (p2 ++ Ev.ret c (.prepErr f) :: post))) :
+    Ev.ret c' (.prepErr f) ∉ p1 := by
+  intro hmem
+  -- the earlier report: f had left the cache before it
+  obtain ⟨q1, q2, hq⟩ := List.append_of_mem hmem
+  have h1 : PConn.run PConn.init as = some (s, q1 ++ Ev.ret c' (.prepErr f) :: (q2 ++ Ev.start c b es :: (p2 ++ Ev.ret c (.prepErr f) :: post))) := by
+    rw [h, hq]; simp
+  obtain ⟨k, _, _, _, _, _, hrm, _⟩ := C14_failure_not_cached_conn as s _ _ c' f h1
+  have hrm1 : Ev.rm k f ∈ p1 := by rw [hq]; exact List.mem_append_left _ hrm
+  -- the later report
+  have h2 : PConn.run PConn.init as = some (s, (p1 ++ Ev.start c b es :: p2) ++ Ev.ret c (.prepErr f) :: post) := by
+    rw [h]; simp
+  obtain ⟨_, _, _, _, _, _, _, hnb⟩ := C14_failure_not_cached_conn as s _ _ c f h2
+  rw [removedBefore_of_rm_before_start p1 p2 c f k b es hrm1] at hnb
+  cases hnb
+
+/-- **Value count.** A call returns the value-count error only if one of its entries has a different number
+    of bound values than the bind columns of a PREPARE answer for that entry's statement … -/
+theorem C14_value_count (as : List (PConn.Action κ)) (s : PConn.State κ) (pre post : List (Ev κ)) (c : Nat)
+    (h : PConn.run PConn.init as = some (s, pre ++ Ev.ret c .countErr :: post)) :
+    ∃ b es e f id nc, Ev.start c b es ∈ pre ∧ e ∈ es ∧ Ev.prep f e.1 (some (id, nc)) ∈ pre ∧ nc ≠ e.2 := by
+  obtain ⟨o1, o2, _, hH, hs⟩ := before_event h
+  simp only [Obs.step] at hs
+  cases hc : o1.callers[c]? with
+  | none => simp [hc] at hs
+  | some cl =>
+    simp only [hc] at hs
+    by_cases hp : cl.pc.live = true ∧ countMismatch o1 cl = true
+    · obtain ⟨b, hb⟩ := hH.start c cl hc
+      have hm := hp.2
+      unfold countMismatch at hm
+      obtain ⟨e, he, hm⟩ := List.any_eq_true.1 hm
+      obtain ⟨f, _, hm⟩ := List.any_eq_true.1 hm
+      simp only [Bool.and_eq_true, Bool.not_eq_true'] at hm
+      cases hf : o1.flights f with
+      | none => simp [hf] at hm
+      | some fl =>
+        simp only [hf, Bool.and_eq_true, decide_eq_true_eq] at hm
+        obtain ⟨_, hk, hans⟩ := hm
+        cases ha : fl.ans with
+        | none => simp [ha] at hans
+        | some r =>
+          cases r with
+          | none => simp [ha] at hans
+          | some p =>
+            obtain ⟨id, nc⟩ := p
+            simp only [ha, decide_eq_true_eq] at hans
+            have := hH.prep f fl _ hf ha
+            rw [hk] at this
+            exact ⟨b, cl.entries, e, f, id, nc, hb, he, this, hans⟩
+    · rw [if_neg hp] at hs; cases hs
+
+/-- … and conversely a waiter whose entry has the wrong number of bound values returns that error and sends
+    nothing (the step emits the return and no frame); together with `C14_id_belongs` (every frame's entries
+    have exactly as many values as bind columns) and `C14_nothing_after_return`. -/
+theorem C14_value_count_step (s : PConn.State κ) (c f : Nat) (cl : Caller κ) (fl : PConn.Flight κ) (e : κ × Nat) (id : Id) (nc : Nat) (a : XAns)
+    (hc : s.callers[c]? = some cl) (hpc : cl.pc = .waiting f) (hf : s.flights[f]? = some fl)
+    (he : cl.entries[cl.got.length]? = some e) (hd : fl.done = true) (ha : fl.ans = some (some (id, nc))) (hne : e.2 ≠ nc) :
+    ∃ s', PConn.step s (.observe c a) = some (s', [Ev.ret c .countErr]) := by
+  simp only [PConn.step, hc, hpc, hf, he, hd, ha, if_true]
+  rw [if_pos hne]
+  exact ⟨_, rfl⟩
+
+/-- **A call that returned sends nothing more** (no frame, no second result). -/
+theorem C14_nothing_after_return (as : List (PConn.Action κ)) (s : PConn.State κ) (pre post : List (Ev κ)) (c : Nat) (out : Outcome)
+    (h : PConn.run PConn.init as = some (s, pre ++ Ev.ret c out :: post)) :
+    ∀ e ∈ post, (∀ ids a, e ≠ Ev.exec c ids a) ∧ (∀ out', e ≠ Ev.ret c out') := by
+  obtain ⟨o, ho⟩ := C14_conn_refines as s _ h
+  obtain ⟨o1, o2, h1, h2⟩ := run_split Obs.init pre (Ev.ret c out) post o ho
+  -- the rest of the run from o2
+  have hrest : Obs.run o2 post = some o := by
+    have : ∀ (xs : List (Ev κ)) (oa ob : OState κ), Obs.run oa xs = some ob →
+        ∀ oc, Obs.run oa (xs ++ Ev.ret c out :: post) = some oc →
+        ∀ od, Obs.step ob (Ev.ret c out) = some od → Obs.run od post = some oc := by
+      intro xs
+      induction xs with
+      | nil =>
+        intro oa ob hab oc hac od hbd
+        simp only [Obs.run] at hab; injection hab with hab; subst hab
+        simp only [List.nil_append, Obs.run, hbd] at hac
+        exact hac
+      | cons x xs ih =>
+        intro oa ob hab oc hac od hbd
+        simp only [Obs.run, List.cons_append] at hab hac
+        cases hs : Obs.step oa x with
+        | none => simp [hs] at hab
+        | some o' =>
+          simp only [hs] at hab hac
+          exact ih o' ob hab oc hac od hbd
+    exact this pre Obs.init o1 h1 o ho o2 h2
+  -- after the return the record of c says `returned`
+  have hret : ∃ cl, o2.callers[c]? = some cl ∧ cl.pc = .returned := by
+    simp only [Obs.step] at h2
+    cases hc : o1.callers[c]? with
+    | none => simp [hc] at h2
+    | some cl =>
+      have hlt : c < o1.callers.length := (List.getElem?_eq_some_iff.1 hc).1
+      have hset : ∀ pc, (setPc o1 c cl pc).callers[c]? = some { cl with pc := pc } := by
+        intro pc; unfold setPc; simp [hlt]
+      simp only [hc] at h2
+      cases out with
+      | ok =>
+        simp only [] at h2
+        split at h2
+        · injection h2 with h2; subst h2; exact ⟨_, hset _, rfl⟩
+        · cases h2
+      | execErr =>
+        simp only [] at h2
+        split at h2
+        · injection h2 with h2; subst h2; exact ⟨_, hset _, rfl⟩
+        · cases h2
+      | prepErr f =>
+        simp only [] at h2
+        split at h2
+        · split at h2
+          · split at h2
+            · injection h2 with h2; subst h2; exact ⟨_, hset _, rfl⟩
+            · cases h2
+          · cases h2
+        · cases h2
+      | countErr =>
+        simp only [] at h2
+        split at h2
+        · injection h2 with h2; subst h2; exact ⟨_, hset _, rfl⟩
+        · cases h2
+  obtain ⟨cl, g1, g2⟩ := hret
+  exact returned_stays c post o2 o cl hrest g1 g2
+
+/-- **No schedule crashes** (the nil dereference in evictPreparedID is unreachable). -/
+theorem C14_no_crash (as : List (PConn.Action κ)) (s : PConn.State κ) (tr : List (Ev κ))
+    (h : PConn.run PConn.init as = some (s, tr)) : Ev.crash ∉ tr := by
+  intro hmem
+  obtain ⟨q1, q2, hq⟩ := List.append_of_mem hmem
+  rw [hq] at h
+  obtain ⟨o1, o2, _, _, hs⟩ := before_event h
+  simp [Obs.step] at hs
+
+/-- **No execution is ever stuck** (what makes a `hang` — watchdog expiry with every frame answered and a
+    goroutine blocked inside gocql — a violation): in every reachable state, for every call that has not
+    returned, the driver's next action of that call is enabled, or it waits for a flight whose own next
+    action (the server's answer to the PREPARE, then the completion by the flight's goroutine) is enabled. -/
+theorem C14_no_caller_stuck (as : List (PConn.Action κ)) (s : PConn.State κ) (tr : List (Ev κ))
+    (h : PConn.run PConn.init as = some (s, tr)) (c : Nat) (cl : Caller κ) (hc : s.callers[c]? = some cl)
+    (hp : cl.pc ≠ .returned) :
+    ∃ a, (PConn.step s a).isSome = true ∧
+      (a = .lookup c ∨ a = .observe c .ok ∨ a = .finish c ∨
+        ∃ f, cl.pc = .waiting f ∧ (a = .srvPrepare f none ∨ a = .complete f)) := by
+  obtain ⟨_, _, hI, _⟩ := reachable h
+  have hok := hI.callers c cl hc
+  have hpcs := hok.pcs
+  cases hpc : cl.pc with
+  | returned => exact absurd hpc hp
+  | start =>
+    rw [hpc] at hpcs
+    have hlt := hpcs.1
+    refine ⟨.lookup c, ?_, Or.inl rfl⟩
+    have he : cl.entries[cl.got.length]? = some cl.entries[cl.got.length] := by simp [hlt]
+    simp only [PConn.step, hc, hpc, if_true, he]
+    cases s.cache (cl.entries[cl.got.length]).1 <;> rfl
+  | answered a =>
+    refine ⟨.finish c, ?_, Or.inr (Or.inr (Or.inl rfl))⟩
+    simp only [PConn.step, hc, hpc]
+    cases a <;> rfl
+  | waiting f =>
+    rw [hpc] at hpcs
+    obtain ⟨hlt, _, fl, e, hf, he, _, _⟩ := hpcs
+    cases ha : fl.ans with
+    | none =>
+      refine ⟨.srvPrepare f none, ?_, Or.inr (Or.inr (Or.inr ⟨f, rfl, Or.inl rfl⟩))⟩
+      simp [PConn.step, hf, ha]
+    | some r =>
+      by_cases hd : fl.done = true
+      · refine ⟨.observe c .ok, ?_, Or.inr (Or.inl rfl)⟩
+        simp only [PConn.step, hc, hpc, hf, he, hd, if_true, ha]
+        cases r with
+        | none => rfl
+        | some p =>
+          obtain ⟨id, nc⟩ := p
+          simp only []
+          split
+          · rfl
+          · split <;> rfl
+      · refine ⟨.complete f, ?_, Or.inr (Or.inr (Or.inr ⟨f, rfl, Or.inr rfl⟩))⟩
+        simp only [PConn.step, hf, ha]
+        rw [if_neg hd]
+        cases r <;> rfl
+
+/-! non-vacuity: concrete schedules -/
+
+/-- two executions of one uncached statement, one PREPARE, both execute with its id -/
+example :
+    (PConn.run (PConn.init : PConn.State Nat)
+      [.call false [(7, 1)], .call false [(7, 1)], .lookup 0, .lookup 1, .srvPrepare 0 (some ([0xAA], 1)), .complete 0,
+       .observe 1 .ok, .observe 0 .ok, .finish 0, .finish 1]).map (·.2) =
+    some [.start 0 false [(7, 1)], .start 1 false [(7, 1)], .prep 0 7 (some ([0xAA], 1)), .exec 1 [[0xAA]] .ok,
+          .exec 0 [[0xAA]] .ok, .ret 0 .ok, .ret 1 .ok] := by decide
+
+/-- UNPREPARED: evict, prepare again, execute with the new id; a failing PREPARE is reported to both
+    waiters after its entry left the cache; a wrong value count sends nothing -/
+example :
+    (PConn.run (PConn.init : PConn.State Nat)
+      [.call false [(7, 1)], .lookup 0, .srvPrepare 0 (some ([0xAA], 1)), .complete 0, .observe 0 (.unprep [0xAA]), .finish 0,
+       .lookup 0, .call false [(7, 1)], .lookup 1, .srvPrepare 1 none, .complete 1, .observe 0 .ok, .observe 1 .ok,
+       .call false [(7, 2)], .lookup 2, .srvPrepare 2 (some ([0xAB], 1)), .complete 2, .observe 2 .ok]).map (·.2) =
+    some [.start 0 false [(7, 1)], .prep 0 7 (some ([0xAA], 1)), .exec 0 [[0xAA]] (.unprep [0xAA]), .rm 7 0,
+          .start 1 false [(7, 1)], .prep 1 7 none, .rm 7 1, .ret 0 (.prepErr 1), .ret 1 (.prepErr 1),
+          .start 2 false [(7, 2)], .prep 2 7 (some ([0xAB], 1)), .ret 2 .countErr] := by decide
+
+/-- the histories the seeded defects produce are rejected by the specification: a failure reported while its
+    entry is still cached (close(done) before remove), a failure served to a later execution, a hang -/
+example : (Obs.run (Obs.init : OState Nat) [.start 0 false [(7, 1)], .prep 0 7 none, .ret 0 (.prepErr 0)]).isNone = true := by decide
+example : (Obs.run (Obs.init : OState Nat) [.start 0 false [(7, 1)], .prep 0 7 none, .rm 7 0, .ret 0 (.prepErr 0),
+    .start 1 false [(7, 1)], .ret 1 (.prepErr 0)]).isNone = true := by decide
+example : (Obs.run (Obs.init : OState Nat) [.start 0 false [(7, 1)], .prep 0 7 none, .hang 0]).isNone = true := by decide
+/-- a second PREPARE while the entry is cached; an id of another statement; a wrong value count on the wire -/
+example : (Obs.run (Obs.init : OState Nat) [.start 0 false [(7, 1)], .start 1 false [(7, 1)], .prep 0 7 (some ([1], 1)),
+    .prep 1 7 (some ([2], 1))]).isNone = true := by decide
+example : (Obs.run (Obs.init : OState Nat) [.start 0 false [(7, 1)], .start 1 false [(8, 1)], .prep 0 7 (some ([1], 1)),
+    .prep 1 8 (some ([2], 1)), .exec 0 [[2]] .ok]).isNone = true := by decide
+example : (Obs.run (Obs.init : OState Nat) [.start 0 false [(7, 2)], .prep 0 7 (some ([1], 1)), .exec 0 [[1]] .ok]).isNone = true := by decide
+
+end Conn
 
 end C14
